@@ -788,6 +788,32 @@ def rule_disk_bound(ctx: Ctx) -> None:
             f"eviction count `{txt}` not recognised", key="disk-evict-count")
 
 
+def rule_negative_slice(ctx: Ctx) -> None:
+    """A surplus computed as a difference is used as a COUNT (range(n): empty when n <= 0), never as a slice bound
+    (`files[: n]` with n < 0 selects all but the last |n|): below capacity that would delete entries that nothing displaced."""
+    n = 0
+    for cname in ("DiskCache", "LRUCache", "HybridCache", "SimpleCache"):
+        for fn in ctx.prog.cls(f"{MOD}.{cname}").methods.values():
+            d = Defs(fn)
+            cfg = None
+            for sub in [x for x in ast.walk(fn.node) if isinstance(x, ast.Subscript) and isinstance(x.slice, ast.Slice)]:
+                for bound in (sub.slice.lower, sub.slice.upper):
+                    b = d.resolve(bound) if bound is not None else None
+                    if not (isinstance(b, ast.BinOp) and isinstance(b.op, ast.Sub) and "max_size" in norm(b)):
+                        continue
+                    n += 1
+                    cfg = cfg or ctx.cfg(fn)
+                    node = cfg.node_containing(sub)
+                    from ..flow import guard_facts
+
+                    facts = guard_facts(cfg, d, node) if node is not None else []
+                    lhs, rhs = norm(b.left), norm(b.right)
+                    guarded = any((f"{lhs} > {rhs}" in t or f"{lhs} >= {rhs}" in t) and pol or ((f"{lhs} <= {rhs}" in t or f"{lhs} < {rhs}" in t) and not pol) for t, pol in facts) or "max(" in norm(bound)
+                    ctx.add("7-disk-bound", fn, sub, guarded, f"`{norm(sub)[:50]}`: the difference is known to be non-negative here" if guarded else
+                            f"`{norm(sub)[:60]}` slices with the difference `{norm(b)}`, which is NEGATIVE while the cache is below capacity: the slice then selects (and the loop destroys) all but the last {rhs} - {lhs} entries", key=f"negative-slice {cname}.{fn.name}")
+    ctx.add("7-disk-bound", MOD, "", True, f"{n} slice bound(s) computed from max_size examined", key="negative-slice-scan")
+
+
 def _value_flows(d: Defs, e: ast.AST, param: str) -> bool:
     return any(isinstance(x, ast.Name) and x.id == param for x in ast.walk(d.resolve(e)))
 
@@ -908,7 +934,7 @@ def rule_proxy_iteration(ctx: Ctx) -> None:
 
 
 def check(ctx: Ctx) -> None:
-    for rule in (rule_disk_levels, rule_stores, rule_lock, rule_invariant, rule_policy, rule_retire, rule_division, rule_pickle_guard, rule_disk_bound, rule_proxy_iteration):
+    for rule in (rule_disk_levels, rule_stores, rule_lock, rule_invariant, rule_policy, rule_retire, rule_division, rule_pickle_guard, rule_disk_bound, rule_negative_slice, rule_proxy_iteration):
         ctx.run(rule)
 
 
